@@ -8,7 +8,7 @@ import lib
 
 
 BROKER_CHECKED = '"Q2HandedOnce", "InflightLeWindow", "WillAtMostOnce", "TerminateAtMostOnce", "IncomingKeptUntilHandedOn"'
-BROKER_INV = "Q2Once InflightLeWindow WillOnce OneHolder NoDuplicateDelivery OrderKept NoLoss"
+BROKER_INV = "Q2Once InflightLeWindow WillOnce OneHolder NoDuplicateDelivery OrderKept NoLoss ConnackFirst NothingBeforeConnect DeniedGetsOnlyConnack RetainedAtMostOncePerSubscribe LiveCopiesNotFlagged"
 
 
 def _scripts(d):
@@ -39,15 +39,21 @@ BROKER_CFGS = {
     "takeover1": dict(scripts={"s1": 'Connect("sub", FALSE, TRUE), Sub(1, 1)', "s2": 'Connect("sub", FALSE, FALSE)'},
                       skeys='"s:sub"', need='"s:sub"', cuts=0, cutconns="", window=2,
                       witnesses=["W_NoWill", "W_NoTakeover"]),
+    # a retained message published before and after a subscription exists: replay on subscribe, live copy unflagged
+    "retained": dict(scripts={"p": 'Connect("pub", TRUE, FALSE), PubR(1, "r1", 1), PubR(2, "r2", 0)', "s1": 'Connect("sub", TRUE, FALSE), Sub(1, 1)'},
+                     skeys='"t:p", "t:s1"', need="", cuts=0, cutconns="", window=2, witnesses=["W_NoRetainedReplay"]),
+    # a refused client, a client whose first packet is not CONNECT, and a regular one
+    "refused": dict(scripts={"d": 'Connect("denied", TRUE, TRUE), Sub(1, 1)', "o": 'Ping, Connect("x", TRUE, FALSE)', "s1": 'Connect("sub", TRUE, FALSE), Sub(1, 1), Ping'},
+                    skeys='"t:d", "t:o", "t:s1"', need="", cuts=0, cutconns="", window=2, witnesses=["W_NoRefusal", "W_NoOffender"]),
     # a second connection with the same client id at any moment (takeover), the first one has a will, a watcher receives it
     "takeover": dict(scripts={"s1": 'Connect("sub", FALSE, TRUE), Sub(1, 1)', "s2": 'Connect("sub", FALSE, FALSE)', "w": 'Connect("watch", TRUE, FALSE), SubW(1)'},
                      skeys='"s:sub", "t:w"', need='"t:w"', cuts=1, cutconns='"s1"', window=2,
                      witnesses=["W_NoWill", "W_NoTakeover"]),
 }
 BROKER_FOR = {   # property -> (quick configs, thorough configs)
-    "C06": (["flow"], ["resume"]), "C07": (["release"], ["resume"]), "C08": (["resume1"], ["resume", "flow"]), "C11": ([], []),
+    "C06": (["flow"], ["resume"]), "C07": (["release"], ["resume"]), "C08": (["resume1"], ["resume", "flow"]), "C11": (["retained"], []),
     "C12": (["takeover1"], ["takeover"]), "C13": (["takeover1"], ["takeover", "resume"]), "C14": (["takeover1"], ["release", "takeover"]),
-    "C15": (["flow"], ["resume"]), "C16": (["flow"], ["resume"]), "C20": ([], ["flow"]),
+    "C15": (["flow"], ["resume"]), "C16": (["flow"], ["resume"]), "C20": (["refused"], ["flow"]),
 }
 
 
@@ -69,7 +75,7 @@ def broker_mc(run, prop):
 
     for n in names:
         c = BROKER_CFGS[n]
-        r = one(c, BROKER_INV, "Delivery")
+        r = one(c, BROKER_INV, "Delivery" if c["need"] else "")
         _expect(r, "BrokerMC " + n)
         states += r.distinct; trans += r.generated
         configs.append("%s: %d states, %d transitions" % (n, r.distinct, r.generated))
